@@ -71,6 +71,17 @@ Theorem C12_set_value : forall reparse s x p n c v v',
 Proof. intros reparse s x p n c v v'. apply step_set_value. Qed.
 Print Assumptions C12_set_value.
 
+(* Headline for histories: for every state without aliasing and every sequence
+   of copy / nested-set / call / read commands (of any length), the
+   observations the model predicts satisfy the per-step property predicate
+   that the check evaluates on the implementation's observations. *)
+Theorem C12_history_meets_spec : forall ops s r0,
+  inv s -> names_ok s -> forallb op_sane ops = true ->
+  spec_steps (obs_of s r0) ops
+    (map (fun sr => obs_of (fst sr) (snd sr)) (run (fun v => v) s ops)) = true.
+Proof. exact history_meets_spec. Qed.
+Print Assumptions C12_history_meets_spec.
+
 (* Non-vacuity. The two design-phase witnesses on the fixed model; spec_ok
    rejects what the unfixed code did (a: null); the initial states satisfy inv. *)
 Definition ex_n (s : bytes) : newval :=
